@@ -12,9 +12,11 @@ ID = 'C10'
 LEAN_MODULES = ['PybtexModel.Props.C10']
 THEOREMS = {
     'C10_total': 'total: for every text, mode, wanted-set, macro table the reader model never runs out of fuel or takes an impossible branch (no error of kind internal reported or raised); when nothing is raised the whole text was read (no "@" left)',
+    'C10_total_wellnested': 'total: with well nested initial macro values (the month names are) the BibTeXError of Person() (nesting > 100) is never reported or raised, so continue mode raises nothing at all: values read are balanced and at most 100 deep, every name piece is a segment of such a value',
     'C10_located': 'located: every syntax error reported or raised carries a line number l with 1 <= l <= 1 + number of line breaks of the text',
     'C10_modes': 'modes: continue mode raises nothing (but the BibTeXError of Person()); strict mode ends exactly like continue mode when nothing was reported, else raises the first reported problem',
     'C10_prefix_stable': 'confined_before: entries, preamble and problems present after the first k commands are initial segments of those of the complete run (only ever appended)',
+    'C10_confined_lone_at_neg': 'confined_after also fails for a malformed command that is a lone "@": "@" is in NAME_CHARS, the next command is read as an entry of type "@misc" and nothing is reported (kernel-evaluated witness) - NEW finding, the restricted C10_confined_partial of DESIGN.md is false as stated',
     'C10_confined_neg': 'confined_after fails with an "@" inside the malformed entry: witness evaluated in the kernel (bogus entry shadows a later real one) - known finding C10-at-inside-malformed-entry',
 }
 RULE = ('every string up to the tier length over the token alphabet {@ a 1 { } ( ) " , = # space newline}; every single token-level '
@@ -160,13 +162,15 @@ def oracle(case, io, reply):
             rest = [e for e in after_got if e['key'].lower() not in partial_keys]
             if rest != after_want:
                 at_inside = '@' in case['bad'][1:]
+                lone_at = case['bad'].strip() == '@'
                 fails.append('confined_after: a balanced malformed entry altered the entries after it%s: bad=%r got keys %r want keys %r' % (
-                    ' [@ inside the malformed entry]' if at_inside else '', case['bad'],
+                    ' [@ inside the malformed entry]' if at_inside else (' [lone @]' if lone_at else ''), case['bad'],
                     [e['key'] for e in after_got], [e['key'] for e in after_want]))
     return fails
 
 
 KNOWN_MATCHERS = {
+    'C10-lone-at-swallows-next-command': lambda case, io, f: f.startswith('confined_after:') and '[lone @]' in f,
     'C10-at-inside-malformed-entry': lambda case, io, f: f.startswith('confined_after:') and '[@ inside the malformed entry]' in f,
 }
 
@@ -266,6 +270,7 @@ def gen_cases(tier, rng, info):
     # witness of the recorded finding C10-at-inside-malformed-entry (replayed on every run)
     cases.append({'op': 'bibparse', 'pre': '@misc{p, t = 1}\n', 'bad': '@misc{k, t = x y @misc{z, u = 1} }', 'post': '\n@misc{z, v = 2}\n',
                   'kind': 'entry', 'cop': 'witness'})
+    cases.append({'op': 'bibparse', 'pre': '@misc{p, t = 1}\n', 'bad': '@', 'post': '\n@misc{z, v = 2}\n', 'kind': 'entry', 'cop': 'witness'})
     if rng.random() < 2:
         cases.append({'op': 'bibparse', 'text': '@a{k, t = ' + '{' * 100 + 'x' + '}' * 100 + '}'})
         cases.append({'op': 'bibparse', 'text': '@a{k, t = ' + '{' * 101 + 'x' + '}' * 101 + '}'})
@@ -276,14 +281,17 @@ def gen_cases(tier, rng, info):
 
 LEVEL_TEXT = ('Machine-checked proofs (Lean 4) about the function-by-function model of LowLevelParser / Parser (Model/BibParse.lean) for EVERY text, '
               'mode, wanted-set, initial macro table and person-field list: the fuel of every loop suffices and no impossible branch is taken, '
-              'so only pybtex error kinds occur and the text is read to its end (C10_total); every syntax error carries a line of the text '
-              '(C10_located, invariant: line counter + line breaks of the unread rest = 1 + line breaks of the text); strict reading = continue-mode '
-              'reading cut at the first reported problem, same database when there is none (C10_modes, simulation of the two runs); what was read '
-              'after k commands is only ever extended (C10_prefix_stable). Confinement after a malformed entry is refuted on a kernel-evaluated '
-              'witness with an "@" inside the entry (C10_confined_neg, known finding); its restricted positive form (no "@" inside, balanced '
-              'braces/quotes) is NOT proved - it is covered by the differential oracle only.')
+              'so only pybtex error kinds occur and the text is read to its end (C10_total); with well nested initial macro values the nesting '
+              'error of Person() is unreachable (C10_total_wellnested: strings returned by parse_string are balanced and <= 100 deep, '
+              'split_tex_string keeps the brace skeleton); every syntax error carries a line of the text (C10_located, invariant: line counter + '
+              'line breaks of the unread rest = 1 + line breaks of the text); strict reading = continue-mode reading cut at the first reported '
+              'problem, same database when there is none (C10_modes, simulation of the two runs); what was read after k commands is only ever '
+              'extended (C10_prefix_stable). Confinement AFTER a malformed entry is refuted on two kernel-evaluated witnesses: an "@" inside the '
+              'entry (C10_confined_neg, known finding) and a lone "@" that swallows the "@" of the next command (C10_confined_lone_at_neg, new); '
+              'a positive restricted form is NOT proved - it is covered by the differential oracle only.')
 LEVEL_NOTE = ('Trusted: Lean kernel; axioms propext/Classical.choice/Quot.sound at most; the hand-written model corresponds to pybtex only as far as '
               'the differential check explores (every string of length <= 4/5 over the token alphabet, single-token corruptions, random Unicode; capture '
-              'and strict mode). "Never an internal exception/hang" of CPython itself is sampled, not proved. Not proved: C10_confined_partial; that the '
-              'reported line EQUALS the line of the offending position (only the bounds); unreachability of the BibTeXError raised by Person() on names '
-              'nested deeper than 100 braces (reachable through a caller-supplied macro table, so C10_total / C10_modes leave it out explicitly).')
+              'and strict mode). "Never an internal exception/hang" of CPython itself is sampled, not proved. Not proved: any positive confinement-after '
+              'theorem (C10_confined_partial as written in DESIGN.md is false: lone "@"); that the reported line EQUALS the line of the offending '
+              'position (only the bounds 1 <= l <= number of lines); prefix stability is stated for the command loop stopped after k rounds, not for '
+              'a decomposition text = a ++ b of the input.')
